@@ -2,6 +2,11 @@
 always the FunctionDef found in /repo at run time."""
 CONTRACTS = {}      # short key (name or Class.method) -> contract dict
 RECORDS = {}
+PREDICATES = {}     # name -> (param names, expression): spec-level predicate macros
+
+
+def predicate(name, params, body):
+    PREDICATES[name] = (params, body)
 
 
 def contract(relpath, qualname, **kw):
@@ -12,5 +17,5 @@ def contract(relpath, qualname, **kw):
 
 
 def load_all():
-    from . import t1_slices   # noqa
+    from . import t1_slices, assumed_numpy, t2_arrays   # noqa
     return CONTRACTS, RECORDS
